@@ -15,3 +15,19 @@ class TestBench:
 
 def double(x: int) -> int:
     return x * 2
+
+
+def testify(x: int) -> int:
+    return x + 1
+
+
+def tests_needed(n: int) -> bool:
+    return n > 0
+
+
+class Testbed:
+    def measure(self, x: int) -> int:
+        return x * 3
+
+    def test_run(self, k):
+        return k
